@@ -13,6 +13,7 @@ import (
 	"fmt"
 	"maps"
 	"slices"
+	"strings"
 
 	"github.com/cedar-policy/cedar-go"
 	"github.com/cedar-policy/cedar-go/internal/consts"
@@ -164,7 +165,12 @@ func Authorize(ctx context.Context, policies cedar.PolicyIterator, entities type
 		be.Variables = append(be.Variables, variableItem{Key: k, Values: v})
 	}
 	slices.SortFunc(be.Variables, func(a, b variableItem) int {
-		return len(a.Values) - len(b.Values)
+		if c := len(a.Values) - len(b.Values); c != 0 {
+			return c
+		}
+		// ties must not follow map iteration order: the order in which variables are
+		// bound decides which error partial evaluation reports
+		return strings.Compare(string(a.Key), string(b.Key))
 	})
 
 	// resolve ignores if no variables exist
